@@ -3,9 +3,9 @@ import MuduoVerif.Generated.Calendar
 /-!
 Model of the time-zone half of muduo/base/TimeZone.cc (C20).
 
-* `readTimeZoneFile` / `readDataBlock` — the TZif reader over the bytes of the file
-  (hand-written here, tied to the code by the differential run over every zone file of the
-  platform and over truncated / damaged variants);
+* the zone table (`Data`: transitions + local time types) as `TimeZone::Data` holds it; the reader
+  that fills it from the bytes of a zone file is `Model/TzFile.lean` (`TzFile.parse`, parameters
+  extracted from the source, theorems `C20.tzfile_*`);
 * `searchLoop` — the loops of libstdc++'s `std::__upper_bound` / `std::__lower_bound`
   (`len`/`half`/`middle`), so the model takes the same probes as the code even on data
   that is not sorted;
@@ -67,120 +67,6 @@ end Data
 
 /-- `TimeZone::TimeZone(int eastOfUtc, const char* name)` -/
 def fixed (eastOfUtc : Int) : Data := (default : Data).addLocalTime eastOfUtc false 0
-
-/-! ### the TZif reader -/
-
-abbrev Bytes := Array UInt8
-
-/-- big-endian value of `k` bytes at `pos` -/
-def beNat (b : Bytes) (pos : Nat) : Nat → Nat → Nat
-  | 0, acc => acc
-  | k+1, acc => beNat b (pos + 1) k (acc * 256 + (b.getD pos 0).toNat)
-
-/-- two's complement reading of a `bits`-bit value -/
-def toSigned (bits : Nat) (v : Nat) : Int :=
-  if v < 2 ^ (bits - 1) then (v : Int) else (v : Int) - (2 ^ bits : Nat)
-
-/-- `File::readInt32` / `readInt64` / `readUInt8` at `pos`: `none` = short read (`logic_error`) -/
-def readSigned (b : Bytes) (pos nbytes : Nat) : Option Int :=
-  if pos + nbytes ≤ b.size then some (toSigned (8 * nbytes) (beNat b pos nbytes 0)) else none
-
-def readU8 (b : Bytes) (pos : Nat) : Option Nat :=
-  if pos + 1 ≤ b.size then some (b.getD pos 0).toNat else none
-
-/-- `File::readBytes(n)` succeeds -/
-def canRead (b : Bytes) (pos n : Nat) : Bool := pos + n ≤ b.size
-
-/-- the six counters of a TZif header -/
-structure Counts where
-  isutccnt : Int
-  isstdcnt : Int
-  leapcnt : Int
-  timecnt : Int
-  typecnt : Int
-  charcnt : Int
-deriving Repr
-
-def readCounts (b : Bytes) (pos : Nat) : Option Counts := do
-  let a ← readSigned b pos 4
-  let s ← readSigned b (pos + 4) 4
-  let l ← readSigned b (pos + 8) 4
-  let t ← readSigned b (pos + 12) 4
-  let y ← readSigned b (pos + 16) 4
-  let c ← readSigned b (pos + 20) 4
-  pure ⟨a, s, l, t, y, c⟩
-
-/-- the loop `trans.push_back(f.readInt32/64())` -/
-def readTimes (b : Bytes) (size : Nat) : Nat → Nat → Option (List Int)
-  | 0, _ => some []
-  | k+1, pos => do
-    let t ← readSigned b pos size
-    let rest ← readTimes b size k (pos + size)
-    pure (t :: rest)
-
-/-- the loop `localtimes.push_back(f.readUInt8())` -/
-def readIdxs (b : Bytes) : Nat → Nat → Option (List Nat)
-  | 0, _ => some []
-  | k+1, pos => do
-    let t ← readU8 b pos
-    let rest ← readIdxs b k (pos + 1)
-    pure (t :: rest)
-
-/-- the loop `data->addLocalTime(gmtoff, isdst, abbrind)` -/
-def readTypes (b : Bytes) : Nat → Nat → Data → Option Data
-  | 0, _, d => some d
-  | k+1, pos, d => do
-    let off ← readSigned b pos 4
-    let dst ← readU8 b (pos + 4)
-    let ab ← readU8 b (pos + 5)
-    readTypes b k (pos + 6) (d.addLocalTime off (dst != 0) ab)
-
-/-- the loop `data->addTransition(trans[i], localtimes[i])` -/
-def addTransitions : List Int → List Nat → Data → Option Data
-  | t :: ts, i :: is, d => do
-    let d' ← d.addTransition t i
-    addTransitions ts is d'
-  | _, _, d => some d
-
-/-- `detail::readDataBlock(f, data, v1)` with the file positioned at `pos` (the counters).
-`none`: the function returns `false` or an exception is thrown (both make `loadZoneFile`
-return an invalid zone).  Negative counters are outside the model (`none`). -/
-def readDataBlock (b : Bytes) (pos : Nat) (v1 : Bool) : Option Data := do
-  let timeSize : Nat := if v1 then 4 else 8
-  let c ← readCounts b pos
-  if c.leapcnt ≠ 0 then none
-  if c.isutccnt ≠ 0 ∧ c.isutccnt ≠ c.typecnt then none
-  if c.isstdcnt ≠ 0 ∧ c.isstdcnt ≠ c.typecnt then none
-  if c.timecnt < 0 ∨ c.typecnt < 0 ∨ c.charcnt < 0 then none
-  let timecnt := c.timecnt.toNat
-  let typecnt := c.typecnt.toNat
-  let p0 := pos + 24
-  let trans ← readTimes b timeSize timecnt p0
-  let p1 := p0 + timeSize * timecnt
-  let idxs ← readIdxs b timecnt p1
-  let p2 := p1 + timecnt
-  let d ← readTypes b typecnt p2 default
-  let p3 := p2 + 6 * typecnt
-  let d ← addTransitions trans idxs d
-  if canRead b p3 c.charcnt.toNat then some d else none
-
-/-- `detail::readTimeZoneFile`: `some data` iff it returns `true` -/
-def readTimeZoneFile (b : Bytes) : Option Data := do
-  if ¬ canRead b 0 4 then none
-  if (b.extract 0 4).toList ≠ [84, 90, 105, 102] then none   -- "TZif"
-  let version ← readU8 b 4
-  if ¬ canRead b 5 15 then none
-  let c ← readCounts b 20
-  if version = 50 then   -- "2"
-    if c.timecnt < 0 ∨ c.typecnt < 0 ∨ c.charcnt < 0 ∨ c.leapcnt < 0 ∨ c.isstdcnt < 0 ∨ c.isutccnt < 0 then none
-    let skip := 4 * c.timecnt.toNat + c.timecnt.toNat + 6 * c.typecnt.toNat + c.charcnt.toNat
-      + 8 * c.leapcnt.toNat + c.isstdcnt.toNat + c.isutccnt.toNat
-    let p := 44 + skip
-    if ¬ canRead b p 4 then none
-    if (b.extract p (p + 4)).toList ≠ [84, 90, 105, 102] then none
-    readDataBlock b (p + 20) false
-  else
-    readDataBlock b 20 true
 
 /-! ### the binary searches of libstdc++ -/
 
